@@ -213,15 +213,16 @@ class Ctx:
         return os.path.join(self.wd, name)
 
     # ---- building and running the harness against /repo's working tree
-    def build(self, crate):
-        t = time.time()
-        rc, out, wall = sh(["cargo", "build", "--offline", "-q", "-p", crate], cwd=HARNESS, timeout=3000)
+    def build(self, crate, bin):
+        """cargo build of one driver binary: always compiles /repo's current working tree."""
+        rc, out, wall = sh(["cargo", "build", "--offline", "-q", "-p", crate, "--bin", bin], cwd=HARNESS, timeout=3000)
         if rc != 0:
-            raise ToolError("cargo build -p %s failed:\n%s" % (crate, out[-4000:]))
-        log("  build %s: %.1fs" % (crate, wall))
+            raise ToolError("cargo build -p %s --bin %s failed:\n%s" % (crate, bin, out[-4000:]))
+        log("  build %s/%s: %.1fs" % (crate, bin, wall))
 
-    def run_bin(self, crate, args, timeout=1800, stdin=None):
-        exe = os.path.join(HARNESS, "target", "debug", crate)
+    def run_bin(self, bin, args, timeout=1800, stdin=None):
+        crate = bin
+        exe = os.path.join(HARNESS, "target", "debug", bin)
         rc, out, wall = sh([exe] + [str(a) for a in args], cwd=self.wd, timeout=timeout, stdin=stdin,
                            env={"RUST_BACKTRACE": "0"})
         if rc != 0:
